@@ -44,7 +44,7 @@ PLAN = dict(
                  "the four primes Q1..Q4 are taken from q120_common.h (configuration); all other constants are re-derived by the oracle",
                  "__int128 results are written to 16-byte aligned buffers"],
     quick=_jobs("quick"), thorough=_jobs("thorough"),
-    fuzz=desc_fuzz("C10", fix=dict(nn=(0, 1024), nnh=(1, 256))),
+    fuzz=desc_fuzz("C10", fix=dict(nn=(0, 1024), nnh=(1, 256)), runs=60000),
     required_classes=dict(all=["kern:" + k for k in KERNS] + ["impl:ref", "impl:avx2"] + ELLC + ["op:" + o for o in OPS]
                           + ["x:canonical", "x:any", "x:extremal", "x:allmax", "x:noncanonical", "x:mixed",
                              "c:proper", "c:arbitrary", "c:extremal-words", "c:allmax-words", "c:proper-extremal",
